@@ -313,6 +313,12 @@ def gen(rng, tier):
         for bits in WIDTHS_MAIN + [2, 63, 129]:
             for s in fromstr_cases(rng, bits):
                 yield 'fs %d %s' % (bits, tx(s))
+    # 7b. every pair of ASCII characters as the two-byte prefix `FromStr` sniffs, followed by "1" and by "z" (exhaustive)
+    for a in range(128):
+        for b in range(128):
+            yield 'fs 64 %s' % tx(chr(a) + chr(b) + '1')
+            if tier != 'quick' or (a * 128 + b) % 7 == 0:
+                yield 'fs 8 %s' % tx(chr(a) + chr(b) + 'z')
     # 8. formatting grid
     nv = 3 if tier == 'quick' else 100
     for bits in WIDTHS_MAIN + [63, 127, 129, 192]:
